@@ -118,10 +118,14 @@ def check_table(agg, kind, nkeys, form, keys, revs, rev_form, na_last):
     py = ("from serif import Table, Vector\n"
           f"t = Table({ {nm: c for nm, c in ([('pos', list(range(n)))] + [(f'k{j}', keycols[j]) for j in range(nkeys)])} !r})\n"
           f"print(list(t.sort_by({[f'k{j}' for j in range(nkeys)]!r}, reverse={rev_arg!r}, na_last={na_last!r}).pos), 'expected', {want_pos!r})")
+    arg_img = [(type(a).__name__, tuple(id(x) if not isinstance(x, bool) else x for x in a)) if isinstance(a, (list, tuple)) else None for a in (by_arg, rev_arg)]
     try:
         res = t.sort_by(by_arg, reverse=rev_arg, na_last=na_last)
     except Exception as e:
         agg.violation(V(site, "raises-" + type(e).__name__, case, want_pos, repr(e)[:100], py))
+        return
+    if arg_img != [(type(a).__name__, tuple(id(x) if not isinstance(x, bool) else x for x in a)) if isinstance(a, (list, tuple)) else None for a in (by_arg, rev_arg)]:
+        agg.violation(V(site, "call-changed-a-list-argument-of-the-caller", case, None, None, py))
         return
     agg.compared += 1
     names = [c._name for c in res._underlying]
